@@ -51,6 +51,7 @@ type Universe struct {
 	late           lateQueue
 	bg             atomic.Int64 // background goroutines of transactions begun through the harness
 	closed         bool
+	asyncGuard     sync.RWMutex // unistore only: no TSO is issued while an async-commit/1PC prewrite executes (see Net.forward)
 	topoMu         sync.Mutex // serializes topology changes issued from concurrent RPC hooks
 	borders        [][]byte   // raw split keys currently in effect (guarded by topoMu)
 	panicMu        sync.Mutex
